@@ -118,9 +118,9 @@ func genC10(t *rapid.T) *hsCase {
 
 // death records why a data-phase attempt ended.
 type death struct {
-	at        time.Time
-	byHsPkt   bool // a SYN/SYNACK was handed to it while in the data phase
-	byFin     bool
+	at      time.Time
+	byHsPkt bool // a SYN/SYNACK was handed to it while in the data phase
+	byFin   bool
 }
 
 type c10Result struct {
